@@ -1,19 +1,31 @@
-(* C18 correspondence for whole small buildings: spaces (with what Data::new adds from their floor) and walls *)
+(* C18 correspondence for whole small buildings: spaces (with what Data::new adds from their floor and their
+   polygon), walls, the construction database, thermal bridges and schedules *)
 From Coq Require Import NArith ZArith QArith Qabs Bool List String.
 From CTE Require Import Base.Num Model.Bdl Model.BdlCase.
-From CTE Require Import Model.BdlTyped Model.BdlTypedEnv Model.TypedCase.
+From CTE Require Import Model.BdlTyped Model.BdlTypedEnv Model.BdlTypedDb Model.TypedCase.
 From CTEGen Require Import BdlTypes.
 Import ListNotations.
 
 Record ispaceT := mkISp { isp_name : string; isp_floor : string; isp_type : string;
   isp_nums : list ival;          (* x, y, z, azimuth, height, floor multiplier, power, veei_obj, veei_ref, multiplier *)
   isp_inside : bool; isp_spacetype : string; isp_spaceconds : string; isp_systemconds : string; isp_multiplied : bool;
-  isp_nvertices : nat }.
+  isp_polygon : list (list ival) }.
 Record iwallT := mkIWl { iwl_name : string; iwl_space : string; iwl_cons : string; iwl_location : option string; iwl_bounds : N;
   iwl_nums : list ival;          (* tilt, x, y, z *)
   iwl_polygon : bool; iwl_azimuth : option ival;   (* the azimuth only where it is the written one (horizontal / polygon) *)
-  iwl_nextto : option string }.
-Inductive ibres := BOk (spaces : list ispaceT) (walls : list iwallT) | BErr | BPanic.
+  iwl_nextto : option string; iwl_vertices : option (list (list ival)) }.
+Record iwallcons := mkIWC { iwc_name : string; iwc_group : string; iwc_material : list string; iwc_thickness : list ival; iwc_absorptance : ival }.
+Record iwincons := mkIWC2 { iwn2_name : string; iwn2_group : string; iwn2_glass : string; iwn2_glassgroup : string; iwn2_frame : string;
+  iwn2_framegroup : string; iwn2_framefrac : ival; iwn2_infcoeff : ival; iwn2_deltau : ival; iwn2_gglshwi : option ival }.
+Record ibridge := mkIBr { ibr_name : string; ibr_length : option ival; ibr_type : string; ibr_psi : ival; ibr_frsi : ival;
+  ibr_geometry : option (ival * ival * string);
+  ibr_catalog : option (list string * list ival * list ival * option (list ival)) }.
+Inductive ischedule :=
+| IDay (name : string) (kind : N) (values : list ival)
+| IWeek (name : string) (kind : N) (days : list string)
+| IYear (name : string) (kind : N) (days months : list N) (weeks : list string).
+Record idb := mkIDb { idb_wallcons : list iwallcons; idb_wincons : list iwincons; idb_bridges : list ibridge; idb_schedules : list ischedule }.
+Inductive ibres := BOk (spaces : list ispaceT) (walls : list iwallT) (db : idb) | BErr | BPanic.
 Record buildingcase := mkBC { bc_lines : list string; bc_impl : ibres }.
 
 Definition bounds_n (b : tbounds) : N := match b with TB_EXTERIOR => 0 | TB_INTERIOR => 1 | TB_GROUND => 2 | TB_ADIABATIC => 3 end%N.
@@ -43,11 +55,13 @@ Definition floor_named (n : str) (bs : list block) : option tfloor :=
   | Some b => match floor_of b with Ok f => Some f | Err _ => None end
   | None => None
   end.
-Definition vertices_of (poly : str) (bs : list block) : nat :=
+Definition polygon_named (poly : str) (bs : list block) : option (list (list str)) :=
   match find (fun b => N.eqb (b_type b) BT_Polygon && str_eqb (b_name b) poly) (rev bs) with
-  | Some b => List.length (b_attrs b)
-  | None => 0
+  | Some b => match polygon_of b with Ok p => Some p | Err _ => None end
+  | None => None
   end.
+Definition polygon_ok (poly : str) (bs : list block) (i : list (list ival)) : bool :=
+  match polygon_named poly bs with Some p => tkss p i | None => false end.
 
 Definition space_ok (bs : list block) (s : tspace) (i : ispaceT) : bool :=
   match floor_named (tsp_floor s) bs, isp_nums i with
@@ -58,17 +72,104 @@ Definition space_ok (bs : list block) (s : tspace) (i : ispaceT) : bool :=
       tk (tsp_multiplier s) mu && Bool.eqb (tsp_inside s) (isp_inside i) &&
       str_eqb (tsp_spacetype s) (s2l (isp_spacetype i)) && str_eqb (tsp_spaceconds s) (s2l (isp_spaceconds i)) &&
       str_eqb (tsp_systemconds s) (s2l (isp_systemconds i)) && Bool.eqb (multiplied_of (tsp_multiplied s)) (isp_multiplied i) &&
-      Nat.eqb (vertices_of (tsp_polygon s) bs) (isp_nvertices i)
+      polygon_ok (tsp_polygon s) bs (isp_polygon i)
   | _, _ => false
   end.
-Definition wall_ok (w : twall) (i : iwallT) : bool :=
+Definition wall_ok (bs : list block) (w : twall) (i : iwallT) : bool :=
+  match twl_polygon w, iwl_vertices i with
+  | None, None => true
+  | Some n, Some v => polygon_ok n bs v
+  | _, _ => false
+  end &&
   str_eqb (twl_name w) (s2l (iwl_name i)) && str_eqb (twl_space w) (s2l (iwl_space i)) && str_eqb (twl_cons w) (s2l (iwl_cons i)) &&
   ostr_eqb (twl_location w) (iwl_location i) && N.eqb (bounds_n (twl_bounds w)) (iwl_bounds i) &&
-  tns [twl_tilt w; twl_x w; twl_y w; twl_z w] (iwl_nums i) && Bool.eqb (twl_polygon w) (iwl_polygon i) &&
+  tns [twl_tilt w; twl_x w; twl_y w; twl_z w] (iwl_nums i) && Bool.eqb (match twl_polygon w with Some _ => true | None => false end) (iwl_polygon i) &&
   match iwl_azimuth i with Some a => tn (twl_azimuth w) a | None => true end &&
   ostr_eqb (twl_nextto w) (iwl_nextto i).
 Fixpoint zip_ok {A B} (f : A -> B -> bool) (a : list A) (b : list B) : bool :=
   match a, b with [], [] => true | x :: ra, y :: rb => f x y && zip_ok f ra rb | _, _ => false end.
+
+(* ---------- the database, thermal bridges, schedules ---------- *)
+(* a documented default or a corrected thickness against the f32 the implementation holds *)
+Definition tn_close (n : tnum) (i : ival) : bool :=
+  match n, i with
+  | NTok t, _ => tk t i
+  | NConst q, INum x => qleb (Qabs (x - q)) (Qabs q * (1 # 8388608))
+  | _, _ => false
+  end.
+Fixpoint tns_close (a : list tnum) (b : list ival) : bool :=
+  match a, b with [], [] => true | x :: ra, y :: rb => tn_close x y && tns_close ra rb | _, _ => false end.
+Fixpoint strs_eqb (a : list str) (b : list string) : bool :=
+  match a, b with [], [] => true | x :: ra, y :: rb => str_eqb x (s2l y) && strs_eqb ra rb | _, _ => false end.
+(* PORCENTAGE / 100 in f32 *)
+Definition div100_close (tok : str) (i : ival) : bool :=
+  match parse_float tok, i with
+  | Some (FNum neg m e), INum q =>
+      if Z.ltb 30 (Z.abs e) then true
+      else let x := exact_of neg m e / 100 in qleb (Qabs (q - x)) (Qabs x * (1 # 2097152) + (1 # (Pos.pow 2 100)))
+  | Some _, _ => true
+  | None, _ => false
+  end.
+Definition wallcons_ok (ls : list twallcons) (cs : list tconstruction) (i : iwallcons) : bool :=
+  match wallcons_lookup ls cs (s2l (iwc_name i)) with
+  | Some (w, ab) =>
+      str_eqb (twc_name w) (s2l (iwc_name i)) && str_eqb (twc_group w) (s2l (iwc_group i)) && strs_eqb (twc_material w) (iwc_material i) &&
+      tns_close (twc_thickness w) (iwc_thickness i) && tn_close ab (iwc_absorptance i)
+  | None => false
+  end.
+Definition wincons_ok (gs : list twincons) (i : iwincons) : bool :=
+  match last_by twn_name (s2l (iwn2_name i)) gs with
+  | Some g =>
+      str_eqb (twn_group g) (s2l (iwn2_group i)) && str_eqb (twn_glass g) (s2l (iwn2_glass i)) &&
+      str_eqb (twn_glassgroup g) (s2l (iwn2_glassgroup i)) && str_eqb (twn_frame g) (s2l (iwn2_frame i)) &&
+      str_eqb (twn_framegroup g) (s2l (iwn2_framegroup i)) && div100_close (twn_percentage g) (iwn2_framefrac i) &&
+      tk (twn_infcoeff g) (iwn2_infcoeff i) && tn (twn_deltau g) (iwn2_deltau i) && otk (twn_gglshwi g) (iwn2_gglshwi i)
+  | None => false
+  end.
+Definition bridge_ok (t : tbridge) (i : ibridge) : bool :=
+  str_eqb (tbr_name t) (s2l (ibr_name i)) && otk (tbr_length t) (ibr_length i) && str_eqb (tbr_type t) (s2l (ibr_type i)) &&
+  tn (tbr_psi t) (ibr_psi i) && tn (tbr_frsi t) (ibr_frsi i) &&
+  match tbr_geometry t, ibr_geometry i with
+  | None, None => true
+  | Some (mn, mx, p), Some (mn', mx', p') => tk mn mn' && tk mx mx' && str_eqb p (s2l p')
+  | _, _ => false
+  end &&
+  match tbr_catalog t, ibr_catalog i with
+  | None, None => true
+  | Some c, Some (cl, pc, fe, se) =>
+      strs_eqb (tct_classes c) cl && tks (tct_pcts c) pc && tks (tct_first c) fe &&
+      match tct_second c, se with None, None => true | Some a, Some b => tks a b | _, _ => false end
+  | _, _ => false
+  end.
+Definition kind_n (k : skind) : N := match k with SFraction => 0 | SOnOff => 1 | STemperature => 2 end%N.
+Fixpoint ns_eqb (a b : list N) : bool :=
+  match a, b with [], [] => true | x :: ra, y :: rb => N.eqb x y && ns_eqb ra rb | _, _ => false end.
+Definition schedule_ok (t : tschedule) (i : ischedule) : bool :=
+  match t, i with
+  | TDay n k v, IDay n' k' v' => str_eqb n (s2l n') && N.eqb (kind_n k) k' && tks v v'
+  | TWeek n k d, IWeek n' k' d' => str_eqb n (s2l n') && N.eqb (kind_n k) k' && strs_eqb d d'
+  | TYear n k d m w, IYear n' k' d' m' w' => str_eqb n (s2l n') && N.eqb (kind_n k) k' && ns_eqb d d' && ns_eqb m m' && strs_eqb w w'
+  | _, _ => false
+  end.
+Definition schedule_of (b : block) : option (res tschedule) :=
+  if N.eqb (b_type b) BT_DaySchedulePd then Some (day_of b)
+  else if N.eqb (b_type b) BT_WeekSchedulePd then Some (week_of b)
+  else if N.eqb (b_type b) BT_SchedulePd then Some (year_of b) else None.
+Fixpoint schedules_of (bs : list block) : list (res tschedule) :=
+  match bs with [] => [] | b :: r => match schedule_of b with Some s => s :: schedules_of r | None => schedules_of r end end.
+
+Definition db_code (bs : list block) (d : idb) : N :=
+  match all_ok (map wallcons_of (of_type BT_Layers bs)), all_ok (map construction_of (of_type BT_Construction bs)),
+        all_ok (map wincons_of (of_type BT_Gap bs)), all_ok (map tb_of (of_type BT_ThermalBridge bs)), all_ok (schedules_of bs) with
+  | Some ls, Some cs, Some gs, Some tbs, Some scs =>
+      if negb (constructions_resolve ls cs) then 3
+      else if negb (Nat.eqb (distinct_n (wallcons_names ls cs)) (List.length (idb_wallcons d)) && forallb (wallcons_ok ls cs) (idb_wallcons d)) then 52
+      else if negb (Nat.eqb (distinct_n (map twn_name gs)) (List.length (idb_wincons d)) && forallb (wincons_ok gs) (idb_wincons d)) then 53
+      else if negb (zip_ok bridge_ok tbs (idb_bridges d)) then 54
+      else if negb (zip_ok schedule_ok scs (idb_schedules d)) then 55
+      else 0
+  | _, _, _, _, _ => 3
+  end%N.
 
 Definition is_wall_type (t : N) : bool := N.eqb t BT_ExteriorWall || N.eqb t BT_Roof || N.eqb t BT_InteriorWall || N.eqb t BT_UndergroundWall.
 
@@ -78,14 +179,14 @@ Definition agree_C18B (c : buildingcase) : N :=
   match bc_impl c with
   | BPanic => 4
   | BErr => 0
-  | BOk isps iwls =>
+  | BOk isps iwls db =>
       match build_blocks (text_of (bc_lines c)) with
       | Err _ => 3
       | Ok bs =>
           match all_ok (map space_of (of_type BT_Space bs)), all_ok (map wall_of (filter (fun b => is_wall_type (b_type b)) bs)) with
           | Some sps, Some wls =>
               if negb (zip_ok (space_ok bs) sps isps) then 50
-              else if negb (zip_ok wall_ok wls iwls) then 51 else 0
+              else if negb (zip_ok (wall_ok bs) wls iwls) then 51 else db_code bs db
           | _, _ => 3
           end
       end
